@@ -30,6 +30,9 @@
 (*                        when the line number moved inside the title) and    *)
 (*                        as-is _parser_pop (a title node closed before its   *)
 (*                        end token keeps no title argument)                  *)
+(*   "TitleLoopNeedsSection"  (model deviation of C02, Demo only) the popping *)
+(*                        loop of subtitle_start_fn runs only while a section *)
+(*                        is open: before the first heading nothing is closed *)
 EXTENDS Naturals, Sequences, FiniteSets, TLC
 
 (* ---------------------------------------------------------------- kinds -- *)
@@ -207,10 +210,16 @@ HlineFn(st0) ==
 
 (* ------------------------------------------- subtitle_start_fn / _end_fn -- *)
 HaveLevel(st) == \E i \in 1..Len(st.stack) : IsLevel(st.stack[i].kind)
+\* ---- begin C02 (round 7): model deviation "TitleLoopNeedsSection" (never switched on by C01) ----
+\* the guard of the popping loop looks for an open SECTION instead of a KIND_TO_LEVEL member (which ROOT is):
+\* with no section open yet the loop is not entered and whatever is open stays open under the new section
+HaveSection(st) == \E i \in 1..Len(st.stack) : IsLevel(st.stack[i].kind) /\ st.stack[i].kind # "ROOT"
+TitleLoopOff(st) == "TitleLoopNeedsSection" \in st.dev /\ ~HaveSection(st)
+\* ---- end C02 (round 7) ----
 RECURSIVE PopForTitle(_, _)
 PopForTitle(st, level) ==
   LET f == Top(st) IN
-  IF st.stuck \/ ~HaveLevel(st) THEN st
+  IF st.stuck \/ ~HaveLevel(st) \/ TitleLoopOff(st) THEN st
   ELSE IF LevelOf(f.kind) < level THEN st
   ELSE IF f.kind = "HTML" /\ f.sarg # <<"span">> THEN st
   ELSE IF f.kind \in (MustCloseKinds \ {"HTML"}) THEN st
